@@ -7,6 +7,22 @@ VERIF = os.path.dirname(os.path.dirname(os.path.abspath(__file__)))
 ALL = ["C%02d" % i for i in range(1, 21)]
 
 CLAIMED = {
+    "C01": dict(
+        engine="conn+mem",
+        text="Lean 4 theorems over an executable model of the buffer layer of connection.c on top of the pool model "
+             "(alloc_memory_, try_grow_read_buffer, shrink_read_buffer, maximize_write_buffer, consume, shift-back, "
+             "receive, reset, error-path releases): for every operation sequence with every argument both windows stay "
+             "inside the arena, ordered and disjoint, and a receive writes only inside the read window; composed with C08 "
+             "(pool) and C02/C03 (parser index safety). Tie: white-box op-sequence correspondence of the real static "
+             "functions vs the model (bounded-exhaustive + random, independent window oracle) and the real daemon under "
+             "ASan+UBSan on size-directed, pipelined and mutated byte streams x arena sizes 64..32768 x levels -3..3 x "
+             "segmentations x handler behaviours, with a bystander connection that must stay served. PARTIAL: the theorem "
+             "is about the model; C-level UB that is not an out-of-range index is only observed by the sanitizers.",
+        note="Trusted: Lean kernel; propext/Classical.choice/Quot.sound only; hand-written ConnMem model + correspondence "
+             "harness/h_mem.c (calls the real statics) and harness/h_daemon.c; gcc ASan/UBSan. External select/epoll "
+             "modes only (threaded modes: C18).",
+        design="DESIGN.md §3 C01",
+        technique="Lean 4 proof (invariant by induction over buffer operations) + model/code correspondence + sanitizer oracle"),
     "C08": dict(
         engine="pool",
         text="Lean 4 theorems over an executable model of memorypool.c (every op, every size_t argument, every op "
